@@ -42,6 +42,9 @@ class _Counter:
     n = 0
 
 
+_TUPLE_NAMES = [set()]
+
+
 def _pattern_test(subject, pat, binds=None):
     """ast test for `subject` matching `pat`, or None if unsupported;
     True for an irrefutable pattern."""
@@ -128,6 +131,21 @@ def _pattern_test(subject, pat, binds=None):
             return None
         binds.append((pat.name, subject))
         return t
+    if isinstance(pat, ast.MatchSequence) and isinstance(
+            subject, ast.Name) and subject.id in _TUPLE_NAMES[0] and not any(
+                isinstance(x, ast.MatchStar) for x in pat.patterns):
+        # the function's own *args tuple: length and elements
+        tests = [ast.Compare(
+            ast.Call(ast.Name("len", ast.Load()), [subject], []),
+            [ast.Eq()], [ast.Constant(len(pat.patterns))])]
+        for i, sp in enumerate(pat.patterns):
+            t = _pattern_test(ast.Subscript(subject, ast.Constant(i),
+                                            ast.Load()), sp, binds)
+            if t is None:
+                return None
+            if t is not True:
+                tests.append(t)
+        return tests[0] if len(tests) == 1 else ast.BoolOp(ast.And(), tests)
     if isinstance(pat, ast.MatchSequence) and isinstance(
             subject, ast.Tuple) and len(pat.patterns) == len(
                 subject.elts) and not any(
@@ -339,10 +357,17 @@ class Desugar(ast.NodeTransformer):
     def visit_FunctionDef(self, node):
         saved = self.in_func
         self.in_func = True
+        # `*args` is a tuple: a sequence pattern on it needs no type test
+        sv = _TUPLE_NAMES[0]
+        stored = {n.id for n in ast.walk(node) if isinstance(n, ast.Name)
+                  and isinstance(n.ctx, (ast.Store, ast.Del))}
+        _TUPLE_NAMES[0] = ({node.args.vararg.arg} - stored) \
+            if node.args.vararg else set()
         try:
             return self.generic_visit(node)
         finally:
             self.in_func = saved
+            _TUPLE_NAMES[0] = sv
 
     visit_AsyncFunctionDef = visit_FunctionDef
 
